@@ -834,9 +834,10 @@ def pm_injectivity(ctx, prog, rep, tmo, failures_pm):
     import time as _t
     if standard:
         hexre = z3.Plus(z3.Union(z3.Range("0", "9"), z3.Range("a", "f")))
-        ent = lambda k: z3.Concat(z3.Re("".join(a_[1] for a_ in tpl[k][:-1])), hexre, z3.Full(z3.ReSort(z3.StringSort())))
-        contp = z3.Union(*[ent(k) for k in order])
-        cont = z3.Union(z3.Re(""), contp)
+        # continuations = encodings of key-sorted entry lists: (entry k1)? (entry k2)? ... in key order
+        ent1 = lambda k: z3.Concat(z3.Re("".join(a_[1] for a_ in tpl[k][:-1])), hexre)
+        cont = z3.Concat(*[z3.Option(ent1(k)) for k in order])
+        contp = z3.Intersect(cont, z3.Plus(z3.AllChar(z3.ReSort(z3.StringSort()))))
         x = z3.String("x")
         ob = rep.add(core.Obligation("c04_pm_value_boundary_unambiguous", "smt",
                                      "no string is both (a non-empty [0-9a-f]+ extension of a value, followed by a continuation) and (a non-empty continuation): equal encodings with the same first key carry the same value and remainder",
@@ -849,8 +850,9 @@ def pm_injectivity(ctx, prog, rep, tmo, failures_pm):
         elif r.status == "sat":
             ob.status = "failed"
             ob.role = "c04-pm-digest-not-injective"
-            ob.counterexample = {"ambiguous_suffix": zstr_value(r.model, x)}
-            failures_pm.append((ob, ("boundary", None, {"x": zstr_value(r.model, x)})))
+            xs = zstr_value(r.model, x)
+            ob.counterexample = {"ambiguous_suffix": xs}
+            failures_pm.append((ob, ("boundary", {k: "".join(a_[1] for a_ in tpl[k][:-1]) for k in order}, {"x": xs, "order": list(order)})))
         else:
             ob.status = "inconclusive"
             rep.inconcl("%s: %s" % (ob.name, r.reason))
@@ -899,6 +901,39 @@ def pm_candidates(info):
     rows = []
     keys = ["SnapshotDigest", "CardanoTransactionsMerkleRoot", "NextAggregateVerificationKey", "NextProtocolParameters", "CurrentEpoch", "LatestBlockNumber",
             "CardanoStakeDistributionEpoch", "CardanoDatabaseMerkleRoot", "NextSnarkAggregateVerificationKey"]
+    if info and info[0] == "boundary":
+        # x is both (non-empty hex u).(sorted entries) and (non-empty sorted entries): two messages sharing a first entry whose value absorbs u
+        names, x, order = info[1], info[2]["x"], info[2]["order"]
+
+        def parses(sx, start=0):
+            """all ways to read sx as key-sorted entries with non-empty hex values"""
+            if sx == "":
+                return [[]]
+            res = []
+            for i in range(start, len(order)):
+                nm = names[order[i]]
+                if sx.startswith(nm):
+                    rest = sx[len(nm):]
+                    j = 0
+                    while j < len(rest) and rest[j] in "0123456789abcdef":
+                        j += 1
+                        for tail in parses(rest[j:], i + 1):
+                            res.append([(order[i], rest[:j])] + tail)
+            return res[:20]
+        for e1 in parses(x):
+            for cut in range(1, len(x) + 1):
+                u = x[:cut]
+                if any(ch not in "0123456789abcdef" for ch in u):
+                    break
+                for e2 in parses(x[cut:]):
+                    used = [k for k, _ in e1 + e2]
+                    firsts = [k for k in order if order.index(k) < min(order.index(k_) for k_ in used)] if used else order[:1]
+                    for k0 in firsts[:2]:
+                        a = {k0: hx("0" + u)}
+                        a.update({k: hx(v) for k, v in e2})
+                        b = {k0: hx("0")}
+                        b.update({k: hx(v) for k, v in e1})
+                        rows.append({"a": a, "b": b})
     if info and info[0] in keys + ["CardanoBlocksTransactionsMerkleRoot", "CardanoBlocksTransactionsBlockNumberOffset", "CardanoStakeDistributionMerkleRoot"] and info[2]:
         k1, k2, vals = info
         if vals.get("v") and vals.get("w") and not vals.get("r") and not vals.get("s"):
